@@ -317,9 +317,14 @@ fn patch(buf: &mut Vec<u8>, f: &Field, cls: usize) {
         }
         "rec" | "rec12" => {
             if f.off + f.width > buf.len() { return; }
-            let hdr = if f.kind == "rec" { 4 } else { f.width - { // BIFF12: id (1-2 bytes) + 1 length byte
+            // (an earlier fault of the same script may have rewritten this record's own header bytes: the
+            // structural fault is then not applicable any more and is skipped)
+            let hdr = if f.kind == "rec" { 4 } else { // BIFF12: id (1-2 bytes) + 1 length byte
                 let idlen = if buf[f.off] & 0x80 != 0 { 2 } else { 1 };
-                buf[f.off + idlen] as usize } };
+                if f.off + idlen >= buf.len() { return; }
+                match f.width.checked_sub(buf[f.off + idlen] as usize) { Some(h) if h == idlen + 1 => h, _ => return }
+            };
+            if hdr > f.width || f.width < hdr { return; }
             let rec: Vec<u8> = buf[f.off..f.off + f.width].to_vec();
             let payload = rec[hdr..].to_vec();
             let mut newp = payload.clone();
@@ -532,7 +537,16 @@ pub fn child(args: &Args) -> i32 {
         { let mut o = stdout.lock(); writeln!(o, "START {}", id).unwrap(); o.flush().unwrap(); }
         let si = v["seed"].as_u64().unwrap() as usize - 1;
         let faults: Vec<(usize, usize)> = v["faults"].as_array().unwrap().iter().map(|x| (x[0].as_u64().unwrap() as usize - 1, x[1].as_u64().unwrap() as usize - 1)).collect();
-        let bytes = apply(&sd[si], &fl[si], &faults);
+        // a panic of the fault applicator is a harness error, never an outcome of the code under test
+        let bytes = match catch(|| apply(&sd[si], &fl[si], &faults)) {
+            Ok(b) => b,
+            Err(p) => {
+                let mut o = stdout.lock();
+                writeln!(o, "DONE {}", json!({"id": id, "outcome": "harness", "msg": p})).unwrap();
+                o.flush().unwrap();
+                continue;
+            }
+        };
         crate::alloc::reset_peak();
         let base = crate::alloc::live();
         let t0 = std::time::Instant::now();
@@ -652,6 +666,10 @@ pub fn run(args: &Args) -> i32 {
     all.sort_by_key(|r| r["id"].as_u64().unwrap_or(0));
     let mut out = std::io::BufWriter::new(std::fs::File::create(args.req("out")).unwrap());
     let mut rep = Report::new();
+    if let Some(h) = all.iter().find(|r| r["outcome"] == "harness") {
+        eprintln!("harness error while applying a fault script: {}", h);
+        return 2;
+    }
     for r in &all {
         let sc = &r["script"];
         rep.case(sc, true);
